@@ -581,6 +581,24 @@ impl Prop for C05Prop {
                     }
                 }
             }
+            // cl23+ CSE groups repeated sub-expressions in a map keyed by the tree hash of the
+            // (renamed) expression, so the order in which their bindings are emitted follows the
+            // fresh names in force; the two programs then consist of the same atoms in another
+            // arrangement.  Excused only for cl23+, equal length, equal multiset of atoms, and a
+            // source that repeats a call form.
+            {
+                let mut xa = vec![];
+                let mut xb = vec![];
+                a.atoms(&mut xa);
+                b.atoms(&mut xb);
+                xa.sort();
+                xb.sort();
+                let modern_cse = matches!(v.case.get("dialect").and_then(|d| d.as_str()), Some("cl23" | "cl23.1" | "cl24"));
+                let src0 = v.case.get("source").and_then(|s| s.as_str()).unwrap_or("");
+                if modern_cse && ah.len() == bh.len() && xa == xb && crate::props::c01::source_repeats_a_call(src0) {
+                    return Some("cl23-cse-binding-order-follows-the-fresh-names");
+                }
+            }
             // the entry point converts the compiler's result to bytes in the thread's ambient
             // integer mode: excused only when the dialect is a legacy-integer one, the history
             // holds the ambient mode at the legacy value, and the two outputs are equal once
